@@ -354,7 +354,7 @@ class TObj(Sort):
         self.cls = cls
 
     def make(self, st, name):
-        return Obj(name, self.cls)
+        return Obj(name.split('!')[0], self.cls)       # an object is its heap path: version suffixes of havoced values do not apply
 
 
 class TOpaque(Sort):
